@@ -1,10 +1,514 @@
 // Package c05: a failed transaction changes nothing except the fee it is charged.
+//
+// Real blocks on a solo ledger. For every block the driver
+//  1. observes each transaction's pre-state and the outcome of its script (probe.go, through the
+//     add-only hook LedgerStoreImp.VerifWalkBlock),
+//  2. executes and adds the block with the real ExecuteBlock / AddBlock,
+//  3. runs the direct property oracle on what the implementation did (per failed transaction: the
+//     only keys that changed are the payer's and the governance contract's ONG records, the amounts
+//     match, the amount is not more than the payer had, GasConsumed is that amount, the only event
+//     is that transfer; per successful one: exactly the script's writes plus the fee; the block
+//     write set holds nothing else),
+//  4. emits the block as a correspondence case: Model/Fee.v gets the persisted ONG records, the
+//     transactions' parameters and the probed outcomes and must reproduce every notify
+//     (state, GasConsumed, number of events, fee event) and the block's write set byte for byte.
 package c05
 
-import "verif/harness/hx"
+import (
+	"bytes"
+	"fmt"
+	"math/big"
+	"strings"
+
+	"github.com/ontio/ontology/common"
+	"github.com/ontio/ontology/common/config"
+	"github.com/ontio/ontology/core/payload"
+	"github.com/ontio/ontology/core/store"
+	"github.com/ontio/ontology/core/types"
+	"github.com/ontio/ontology/smartcontract/event"
+	ninit "github.com/ontio/ontology/smartcontract/service/native/init"
+	nutils "github.com/ontio/ontology/smartcontract/service/native/utils"
+	"github.com/ontio/ontology/smartcontract/service/neovm"
+
+	"verif/harness/hx"
+	"verif/harness/ledgerkit"
+)
 
 func init() { hx.Register("C05", Run) }
 
+type blockInput struct {
+	Seed    int64     `json:"seed"`
+	Block   int       `json:"block"`   // index of the generated block (replay: regenerate up to it with the same seed)
+	Witness string    `json:"witness"` // deterministic probe name, or ""
+	Txs     []*txDesc `json:"txs"`
+	Failed  int       `json:"failed_tx"`
+}
+
 func Run(c *hx.Ctx) {
 	c.CoqModule("Corr.C05")
+	var in blockInput
+	replay := c.ReplayInput(&in)
+	if replay && in.Witness == "" {
+		c.Rng.Seed(in.Seed)
+	}
+	w, err := newWorld(c)
+	if err != nil {
+		c.Fail("ledger-setup", "solo chain with funded accounts and the storage contract", nil, err.Error(), nil)
+		return
+	}
+	defer w.k.Close()
+	if replay && in.Witness != "" {
+		witnesses(w, in.Witness)
+		return
+	}
+	n := c.N(130, 1200)
+	if replay {
+		n = in.Block + 1
+	}
+	for b := 0; b < n; b++ {
+		only := !replay || b == in.Block
+		if !w.oneBlock(b, only) {
+			return
+		}
+	}
+	if !replay {
+		witnesses(w, "")
+	}
+}
+
+// oneBlock generates, observes, executes and checks one block. report=false: run silently (replay prefix).
+func (w *world) oneBlock(idx int, report bool) bool {
+	c := w.c
+	var txs []*types.Transaction
+	var descs []*txDesc
+	add := func(tx *types.Transaction, d *txDesc, err error) bool {
+		if err != nil {
+			c.Fail("driver-gen", "transaction could be built", d, err.Error(), nil)
+			return false
+		}
+		txs, descs = append(txs, tx), append(descs, d)
+		return true
+	}
+	if c.Intn(3) == 0 {
+		if !add(w.refill()) {
+			return false
+		}
+	}
+	k := 1 + c.Intn(4)
+	if c.Intn(2) == 0 {
+		k = 1
+	}
+	for i := 0; i < k; i++ {
+		if !add(w.genTx()) {
+			return false
+		}
+	}
+	in := &blockInput{Seed: c.Seed, Block: idx, Txs: descs}
+	blk, err := w.k.MakeBlock(txs)
+	if err != nil {
+		c.Fail("driver-gen", "block could be built", in, err.Error(), nil)
+		return false
+	}
+	obs := make([]*txObs, len(txs))
+	wpanic, wmsg := hx.Recover(func() { err = walk(w, blk, obs) })
+	if !wpanic && err != nil {
+		c.Fail("block-rejected", "a block of signed invoke transactions is executable", in, err.Error(), nil)
+		return false
+	}
+	var res store.ExecuteResult
+	panicked, msg := hx.Recover(func() { res, err = w.k.Ledger.ExecuteBlock(blk) })
+	c.Eval()
+	if panicked {
+		// Go run-time panic while executing the block: nothing was added; report and go on
+		if report {
+			w.reportPanic(in, blk, obs, msg)
+		}
+		return true
+	}
+	if wpanic {
+		c.Fail("walk-differs", "ExecuteBlock treats a transaction as handleTransaction does after a cache Reset", in, "no panic", wmsg)
+		return false
+	}
+	if err != nil {
+		c.Fail("block-rejected", "a block of signed invoke transactions is executable", in, err.Error(), nil)
+		return false
+	}
+	if err := w.k.Ledger.AddBlock(blk, nil, res.MerkleRoot); err != nil {
+		c.Fail("block-rejected", "an executed block can be added", in, err.Error(), nil)
+		return false
+	}
+	if !report {
+		return true
+	}
+	real := writeSet(res.WriteSet)
+	w.oracle(in, blk, obs, res.Notify, real)
+	w.emitCase(in, blk, obs, res.Notify, real)
+	return true
+}
+
+// ---------- direct property oracle ----------
+
+func sameKV(a, b []kvPair) bool {
+	if len(a) != len(b) {
+		return false
+	}
+	for i := range a {
+		if !bytes.Equal(a[i].K, b[i].K) || !bytes.Equal(a[i].V, b[i].V) {
+			return false
+		}
+	}
+	return true
+}
+
+func changedKeys(before, after []kvPair) [][]byte {
+	var out [][]byte
+	for _, e := range after {
+		if v, ok := lookup(before, e.K); !ok || !bytes.Equal(v, e.V) {
+			out = append(out, e.K)
+		}
+	}
+	for _, e := range before {
+		if _, ok := lookup(after, e.K); !ok {
+			out = append(out, e.K)
+		}
+	}
+	return out
+}
+
+func feeEvent(n *event.NotifyEventInfo, payer common.Address) (uint64, bool) {
+	st, ok := n.States.([]interface{})
+	if !ok || n.ContractAddress != nutils.OngContractAddress || len(st) != 4 {
+		return 0, false
+	}
+	if st[0] != "transfer" || st[1] != payer.ToBase58() || st[2] != nutils.GovernanceContractAddress.ToBase58() {
+		return 0, false
+	}
+	v, ok := st[3].(uint64)
+	return v, ok
+}
+
+func (w *world) oracle(in *blockInput, blk *types.Block, obs []*txObs, notifies []*event.ExecuteNotify, real []kvPair) {
+	c := w.c
+	if len(notifies) != len(obs) {
+		c.Fail("notify-count", "one execution record per transaction", in, len(notifies), len(obs))
+		return
+	}
+	gov := ongKey(nutils.GovernanceContractAddress)
+	failedWrites := map[string]int{}
+	for i, tx := range blk.Transactions {
+		o, n := obs[i], notifies[i]
+		in.Failed = i
+		d := in.Txs[i]
+		// the real execution and the observed walk must tell the same story
+		if n.State != o.Walk.State || n.GasConsumed != o.Walk.GasConsumed || len(n.Notify) != len(o.Walk.Notify) {
+			c.Fail("walk-differs", "ExecuteBlock treats a transaction as handleTransaction does after a cache Reset", in,
+				fmt.Sprint(n.State, n.GasConsumed, len(n.Notify)), fmt.Sprint(o.Walk.State, o.Walk.GasConsumed, len(o.Walk.Notify)))
+		}
+		pk := ongKey(tx.Payer)
+		pb, ok1 := balance(o.PayerRaw)
+		gb, ok2 := balance(o.GovRaw)
+		pa, ok3 := balance(o.PayerAfter)
+		ga, ok4 := balance(o.GovAfter)
+		if !(ok1 && ok2 && ok3 && ok4) {
+			c.Fail("record-undecodable", "stored ONG records decode", in, nil, nil)
+			continue
+		}
+		fee := new(big.Int).Mul(new(big.Int).SetUint64(n.GasConsumed), scale)
+		class := "tx:" + d.Kind
+		if n.State == event.CONTRACT_STATE_FAIL {
+			c.Count("outcome:failed")
+			if o.Probe != nil {
+				for _, e := range o.Probe.Cache {
+					failedWrites[string(e.K)] = i
+				}
+				if len(o.Probe.Cache) > 0 {
+					c.Count("failed-after-writes")
+				}
+				c.Count("failed:" + failKind(o.Probe))
+			} else {
+				c.Count("failed:not-executed:" + notRun(tx, o.PayerRaw))
+			}
+			if n.GasConsumed > 0 {
+				c.Count("failed-with-fee")
+			} else {
+				c.Count("failed-without-fee")
+			}
+			// (1) every storage effect is discarded: only the two ONG records may change
+			for _, k := range changedKeys(o.Before, o.After) {
+				if !bytes.Equal(k, pk) && !bytes.Equal(k, gov) {
+					c.Fail("leak:failed-tx-write-survived", "a failed transaction changes only the payer's and the governance contract's ONG records", in, hx.Hex(k), class)
+				}
+			}
+			// (2) the change is the fee moved from the payer to governance, (3) not more than the payer had
+			moved := new(big.Int).Sub(pb, pa)
+			if tx.Payer == nutils.GovernanceContractAddress {
+				moved = new(big.Int)
+			} else if new(big.Int).Sub(ga, gb).Cmp(moved) != 0 {
+				c.Fail("fee:not-conserved", "what the payer loses is what governance gains", in, fmt.Sprint(pb, pa, gb, ga), class)
+			}
+			if moved.Sign() < 0 || moved.Cmp(pb) > 0 {
+				c.Fail("fee:exceeds-balance", "the fee never exceeds the payer's balance", in, moved.String(), pb.String())
+			}
+			// (4) reported gas consumed = fee moved
+			if moved.Cmp(fee) != 0 {
+				c.Fail("fee:reported-differs", "GasConsumed equals the fee actually moved", in, fee.String(), moved.String())
+			}
+			// (5) the only event of a failed transaction is the fee transfer
+			switch {
+			case n.GasConsumed == 0 && len(n.Notify) != 0:
+				c.Fail("event:failed-tx-events", "a failed transaction that pays nothing records no event", in, len(n.Notify), 0)
+			case n.GasConsumed > 0:
+				if len(n.Notify) != 1 {
+					c.Fail("event:failed-tx-events", "a failed transaction records exactly the fee transfer", in, len(n.Notify), 1)
+				} else if v, ok := feeEvent(n.Notify[0], tx.Payer); !ok || v != n.GasConsumed {
+					c.Fail("event:fee-event", "the fee event names payer, governance and the amount", in, fmt.Sprint(n.Notify[0].States), n.GasConsumed)
+				}
+			}
+			if len(o.Probe.cacheOrNil()) > 0 && n.GasConsumed > 0 {
+				c.Nontrivial(fmt.Sprintf("%d-%d-%d", c.Seed, in.Block, i))
+			}
+		} else {
+			c.Count("outcome:success")
+			if o.Probe == nil {
+				c.Fail("success-without-run", "a successful transaction ran its script", in, nil, nil)
+				continue
+			}
+			// the transaction's writes, once, plus the fee
+			view := func(k []byte, before []byte) []byte {
+				if v, ok := lookup(o.Probe.Cache, k); ok {
+					return v
+				}
+				return before
+			}
+			for _, k := range changedKeys(o.Before, o.After) {
+				if bytes.Equal(k, pk) || bytes.Equal(k, gov) {
+					continue
+				}
+				want, ok := lookup(o.Probe.Cache, k)
+				got, _ := lookup(o.After, k)
+				if !ok || !bytes.Equal(want, got) {
+					c.Fail("commit:success-writes", "a successful transaction commits exactly its script's writes", in, hx.Hex(k), class)
+				}
+			}
+			for _, e := range o.Probe.Cache {
+				if got, ok := lookup(o.After, e.K); !bytes.Equal(e.K, pk) && !bytes.Equal(e.K, gov) && (!ok || !bytes.Equal(got, e.V)) {
+					c.Fail("commit:success-writes", "a successful transaction commits exactly its script's writes", in, hx.Hex(e.K), class)
+				}
+			}
+			pe, okp := balance(view(pk, o.PayerRaw))
+			ge, okg := balance(view(gov, o.GovRaw))
+			charged := tx.GasPrice != 0 && !bytes.Equal(tx.Payload.(*payload.InvokeCode).Code, ninit.COMMIT_DPOS_BYTES)
+			if okp && okg && tx.Payer != nutils.GovernanceContractAddress {
+				want := new(big.Int)
+				if charged {
+					want = fee
+				}
+				if new(big.Int).Sub(pe, pa).Cmp(want) != 0 || new(big.Int).Sub(ga, ge).Cmp(want) != 0 {
+					c.Fail("fee:success-amount", "a successful transaction pays exactly GasConsumed on top of its own effects", in,
+						fmt.Sprint(pe, pa, ge, ga), want.String())
+				}
+			}
+			if charged {
+				c.Count("success:charged")
+			} else {
+				c.Count("success:free")
+			}
+			if charged && n.GasConsumed > 0 {
+				if len(n.Notify) == 0 {
+					c.Fail("event:fee-event", "the fee transfer is the last event", in, 0, 1)
+				} else if v, ok := feeEvent(n.Notify[len(n.Notify)-1], tx.Payer); !ok || v != n.GasConsumed {
+					c.Fail("event:fee-event", "the fee transfer is the last event", in, fmt.Sprint(n.Notify[len(n.Notify)-1].States), n.GasConsumed)
+				}
+			}
+			if len(o.Probe.Cache) > 0 {
+				c.Nontrivial(fmt.Sprintf("%d-%d-%d", c.Seed, in.Block, i))
+			}
+		}
+		c.Count("kind:" + d.Kind)
+		c.Count(priceClass(tx.GasPrice))
+	}
+	in.Failed = -1
+	// the block's write set is what the walk accumulated, nothing else
+	last := obs[len(obs)-1].After
+	if !sameKV(real, last) {
+		for _, k := range changedKeys(last, real) {
+			if i, ok := failedWrites[string(k)]; ok && notifies[i].State == event.CONTRACT_STATE_FAIL {
+				in.Failed = i
+				c.Fail("leak:failed-tx-write-survived", "the block write set holds no write of a failed transaction", in, hx.Hex(k), nil)
+				return
+			}
+		}
+		c.Fail("writeset:differs", "the block write set is the successful transactions' writes and the fees", in, len(real), len(last))
+	}
+	c.Count(fmt.Sprintf("block-txs:%d", len(obs)))
+}
+
+func (o *outcome) cacheOrNil() []kvPair {
+	if o == nil {
+		return nil
+	}
+	return o.Cache
+}
+
+func failKind(o *outcome) string {
+	switch {
+	case o.Ok:
+		return "after-execution(balance)"
+	case strings.Contains(o.Err, "gas insufficient") || strings.Contains(o.Err, "Gas") || strings.Contains(o.Err, "gas"):
+		return "out-of-gas"
+	case strings.Contains(o.Err, "authentication") || strings.Contains(o.Err, "witness"):
+		return "authorization"
+	case strings.Contains(o.Err, "insufficient") || strings.Contains(o.Err, "underflow"):
+		return "insufficient-balance"
+	default:
+		return "fault"
+	}
+}
+
+// notRun names the check that stopped the transaction before its script ran (distribution only)
+func notRun(tx *types.Transaction, payerRaw []byte) string {
+	old, _ := balanceU64(payerRaw)
+	clg := uint64(len(tx.Payload.(*payload.InvokeCode).Code)/neovm.PER_UNIT_CODE_LEN) * neovm.UINT_INVOKE_CODE_LEN_GAS
+	switch {
+	case old < neovm.MIN_TRANSACTION_GAS*tx.GasPrice:
+		return "balance<minGas"
+	case old < clg*tx.GasPrice:
+		return "balance<codeLenGas"
+	case tx.GasLimit < clg:
+		return "gasLimit<codeLenGas"
+	}
+	return "?"
+}
+
+func priceClass(p uint64) string {
+	switch {
+	case p == 0:
+		return "price:0"
+	case p < 10000:
+		return "price:1..9999"
+	case p <= two64div20000:
+		return "price:below-wrap"
+	default:
+		return "price:minGas-wraps"
+	}
+}
+
+// ---------- correspondence case ----------
+
+func coqKV(l []kvPair) string {
+	var it []string
+	for _, e := range l {
+		it = append(it, "("+hx.CoqBytes(e.K)+", "+hx.CoqBytes(e.V)+")")
+	}
+	return hx.CoqList(it)
+}
+
+func (w *world) emitCase(in *blockInput, blk *types.Block, obs []*txObs, notifies []*event.ExecuteNotify, real []kvPair) {
+	c := w.c
+	// the persisted ONG records the model may read, as a store (sorted, live entries only)
+	var st []kvPair
+	for k, v := range w.stored {
+		if len(v) > 0 {
+			st = append(st, kvPair{[]byte(k), v})
+		}
+	}
+	sortKV(st)
+	var txs, rs []string
+	for i, tx := range blk.Transactions {
+		code := tx.Payload.(*payload.InvokeCode).Code
+		signed := false
+		for _, a := range tx.GetSignatureAddresses() {
+			signed = signed || a == tx.Payer
+		}
+		sys := bytes.Equal(code, ninit.COMMIT_DPOS_BYTES) || blk.Header.Height == 0
+		pr := "None"
+		if p := obs[i].Probe; p != nil {
+			pr = fmt.Sprintf("(Some (%d, mkOut %s %s %s %d %d))", p.Gas, coqKV(p.Cache), hx.CoqBool(p.Ok), hx.CoqBool(p.Internal), p.Left, p.Events)
+		}
+		txs = append(txs, fmt.Sprintf("(mkTx %s %s %d %d %d %s, %s)", hx.CoqBytes(tx.Payer[:]), hx.CoqBool(signed), tx.GasPrice, tx.GasLimit, len(code), hx.CoqBool(sys), pr))
+		n := notifies[i]
+		var fe []string
+		for _, e := range n.Notify {
+			if v, ok := feeEvent(e, tx.Payer); ok && n.GasConsumed == v && e == n.Notify[len(n.Notify)-1] {
+				fe = append(fe, hx.CoqN(v))
+			}
+		}
+		rs = append(rs, fmt.Sprintf("(%d, %d, %s, %d)", n.State, n.GasConsumed, hx.CoqList(fe), len(n.Notify)))
+	}
+	gasTable := "None"
+	if v, ok := neovm.GAS_TABLE.Load(neovm.UINT_INVOKE_CODE_LEN_NAME); ok {
+		gasTable = fmt.Sprintf("(Some %d)", v.(uint64))
+	}
+	term := fmt.Sprintf("CBlock %d %d %s %s\n  %s\n  %s\n  %s", config.DefConfig.P2PNode.NetworkId, blk.Header.Height, gasTable,
+		coqKV(st), hx.CoqList(txs), hx.CoqList(rs), coqKV(real))
+	c.Case(term, in)
+	if len(obs) > 1 {
+		c.Sample(in)
+	}
+}
+
+func sortKV(l []kvPair) {
+	for i := 1; i < len(l); i++ {
+		for j := i; j > 0 && bytes.Compare(l[j].K, l[j-1].K) < 0; j-- {
+			l[j], l[j-1] = l[j-1], l[j]
+		}
+	}
+}
+
+var _ = ledgerkit.OngAddr
+
+// roundZero: GasPrice * MIN_TRANSACTION_GAS wraps to 0 (GasPrice a non-zero multiple of 2^59)
+func roundZero(p uint64) bool { return p != 0 && p*neovm.MIN_TRANSACTION_GAS == 0 }
+
+func (w *world) reportPanic(in *blockInput, blk *types.Block, obs []*txObs, msg string) {
+	c := w.c
+	class := "panic:other"
+	for i, tx := range blk.Transactions {
+		if i < len(obs) && obs[i] != nil && obs[i].Walk == nil && roundZero(tx.GasPrice) {
+			class = "panic:gasprice-round-zero"
+			in.Failed = i
+		}
+	}
+	c.Count("block:" + class)
+	if len(msg) > 300 {
+		msg = msg[:300]
+	}
+	c.Fail(class, "a block of signed invoke transactions can be executed: every transaction fails or succeeds and is charged its fee",
+		in, "ExecuteBlock panics: "+msg, "an execution record for every transaction")
+	if len(obs) > 0 && obs[0] != nil {
+		w.emitPanicCase(in, blk, obs, true)
+	}
+}
+
+// emitPanicCase: the model must predict the panic (or its absence) for the block; only the
+// transactions the walk reached are given (the last one is the one that panicked).
+func (w *world) emitPanicCase(in *blockInput, blk *types.Block, obs []*txObs, panicked bool) {
+	var st []kvPair
+	for k, v := range w.stored {
+		if len(v) > 0 {
+			st = append(st, kvPair{[]byte(k), v})
+		}
+	}
+	sortKV(st)
+	var txs []string
+	for i, tx := range blk.Transactions {
+		if i >= len(obs) || obs[i] == nil {
+			break
+		}
+		code := tx.Payload.(*payload.InvokeCode).Code
+		pr := "None"
+		if p := obs[i].Probe; p != nil {
+			pr = fmt.Sprintf("(Some (%d, mkOut %s %s %s %d %d))", p.Gas, coqKV(p.Cache), hx.CoqBool(p.Ok), hx.CoqBool(p.Internal), p.Left, p.Events)
+		}
+		signed := false
+		for _, a := range tx.GetSignatureAddresses() {
+			signed = signed || a == tx.Payer
+		}
+		txs = append(txs, fmt.Sprintf("(mkTx %s %s %d %d %d false, %s)", hx.CoqBytes(tx.Payer[:]), hx.CoqBool(signed), tx.GasPrice, tx.GasLimit, len(code), pr))
+	}
+	gasTable := "None"
+	if v, ok := neovm.GAS_TABLE.Load(neovm.UINT_INVOKE_CODE_LEN_NAME); ok {
+		gasTable = fmt.Sprintf("(Some %d)", v.(uint64))
+	}
+	w.c.Case(fmt.Sprintf("CPanic %d %d %s %s\n  %s %s", config.DefConfig.P2PNode.NetworkId, blk.Header.Height, gasTable, coqKV(st), hx.CoqList(txs), hx.CoqBool(panicked)), in)
 }
